@@ -44,6 +44,12 @@ type BoolV struct {
 
 type OpaqueV struct{ Origin string }
 
+// PtrV is the address of a struct field, together with the activation it was taken in.
+type PtrV struct {
+	FA  *ssa.FieldAddr
+	Env *env
+}
+
 // StructV is a struct value with known fields (used to partially evaluate
 // converter methods for concrete argument values).
 type StructV struct{ Fields map[string]Val }
@@ -470,7 +476,11 @@ func (x *Evaluator) evalU(v ssa.Value, e *env, c *evalCtx) Val {
 		return OpaqueV{"array-index"}
 	case *ssa.Alloc:
 		return OpaqueV{"pointer"}
-	case *ssa.FieldAddr, *ssa.IndexAddr:
+	case *ssa.FieldAddr:
+		// the address of a field: what is read or written through it (by a helper that receives
+		// the pointer) is that field, in this activation
+		return PtrV{FA: v, Env: e}
+	case *ssa.IndexAddr:
 		return OpaqueV{"pointer"}
 	case *ssa.TypeAssert:
 		return x.evalC(v.X, e, c)
@@ -1011,6 +1021,10 @@ func (x *Evaluator) evalLoad(v *ssa.UnOp, e *env, c *evalCtx) Val {
 			return x.symbolic(v.Type(), "field:"+a.Name())
 		}
 		return x.symbolic(v.Type(), "global:"+a.Name())
+	}
+	// a load through a pointer the function received: the field it points to
+	if pv, ok := x.evalC(v.X, e, c).(PtrV); ok && pv.FA != nil && pv.Env != nil {
+		return x.evalFieldRead(pv.FA, v.Type(), pv.Env, c)
 	}
 	return x.symbolic(v.Type(), "load")
 }
